@@ -113,13 +113,44 @@ structure Evm where
   para : Raw                  -- EVMContractAction4Chain33.Para
   deriving Repr, DecidableEq
 
+/-- the text after the `n`-th '.', `none` when there are fewer dots. -/
+def afterNthDot : Nat → List Char → Option (List Char)
+  | 0, l => some l
+  | _ + 1, [] => none
+  | n + 1, c :: rest => if c = '.' then afterNthDot n rest else afterNthDot (n + 1) rest
+
+/-- `types.GetParaExecName`: under the prefix `user.p.` everything after the third dot, unless that dot is the last
+byte (or there is no third dot). -/
+def paraExecName (e : List Char) : List Char :=
+  if "user.p.".toList.isPrefixOf e then
+    match afterNthDot 3 e with
+    | some rest => if rest.isEmpty then e else rest
+    | none => e
+  else e
+
+/-- `types.GetRealExecName`: strip the para-chain title; a name still starting with `user.p.` is returned as is; under
+`user.` the segment up to the second dot (the whole rest when there is none) — unless it is empty. -/
+def realExecName (e : List Char) : List Char :=
+  let e' := paraExecName e
+  if "user.p.".toList.isPrefixOf e' then e'
+  else if "user.".toList.isPrefixOf e' then
+    let seg := (e'.drop 5).takeWhile (· != '.')
+    if seg.isEmpty then e' else seg
+  else e'
+
 /-- what `checkTxBlockedAccountCore` reads of a transaction. -/
 structure TxV where
   sender : List Char          -- tx.From()
   to : List Char              -- tx.GetTo()
   realTo : List Char          -- tx.GetRealToAddr()
-  evm : Option Evm            -- `some` iff GetRealExecName(execer) = "evm" and the payload decodes
+  execer : List Char          -- tx.GetExecer()
+  payload : Option Evm        -- the payload decoded as EVMContractAction4Chain33 (`none`: it does not decode)
   deriving Repr, DecidableEq
+
+/-- `checkEVMTxBlockedTarget` looks into the payload iff `GetRealExecName(execer) == "evm"` (so `evm`,
+`user.evm.<name>`, `user.p.<title>.evm`, `user.p.<title>.user.evm.<name>` — not `xevm`, `user.evmx`, `user.write.evm`). -/
+def TxV.evm (t : TxV) : Option Evm :=
+  if realExecName t.execer == "evm".toList then t.payload else none
 
 inductive Pos where
   | sender | to | realTo | evmContract | evmPara
